@@ -756,5 +756,5 @@ func run(c Case, o *lib.Obs) error {
 }
 
 func TestC11(t *testing.T) {
-	lib.Check(t, spec, lib.Scale(24, 600), gen, run)
+	lib.Check(t, spec, lib.Scale(24, 300), gen, run)
 }
